@@ -1227,8 +1227,8 @@ def self_test():
 
 SUBCHECKS = [
     SubCheck("edge_tree", edge_tree_case(), fn_edge_tree, quick=1500, thorough=2500),
-    # if the orientation loop of the MST ever runs on a cyclic edge set it grows its
-    # queue without bound (up to ~0.7 GB/s), so it must be stopped long before 8-16 workers exhaust the machine (see memory_cap)
+    # if the orientation loop of the MST ever runs on a cyclic edge set it grows its queue without bound (~1 GB/s): memory is bounded by
+    # memory_cap (a MemoryError becomes a violation); the shorter watchdog only stops the slowly growing variants early
     SubCheck("edge_mst", mst_case(), fn_mst, quick=1500, thorough=2500, watchdog=(10, 30)),
     SubCheck("face_tree", face_tree_case(), fn_face_tree, quick=1100, thorough=2000),
     SubCheck("cell_tree", cell_tree_case(), fn_cell_tree, quick=700, thorough=1500),
